@@ -4,6 +4,7 @@ import Proofs.Machine.FileHeaders5
 import Proofs.Machine.MiscSource
 import Proofs.Machine.SubmoduleLogSource
 import Proofs.Machine.HunkRowsShape
+import Proofs.Machine.CommitBlocksEx
 import Proofs.Headers.Paths
 import Proofs.Headers.HunkHeader
 /-!
@@ -735,5 +736,93 @@ theorem binary_line_inside_hunk_changes_shown_path :
     (match run cfgFile (["diff --git a/x b/x", "--- a/x", "+++ b/x", "@@ -1 +1 @@", "Binary files a/x and b/x differ", "+z"].map mkL) with
      | .ok m => (m.out.filter (fun r => r.kind == .hunkHeader)).map (fun r => String.ofList r.text)
      | .error _ => []) = ["§ x (binary file):1:  "] := by decide
+
+-- whole runs over `git log -p` / `git show`: commit blocks between the sections (T19) ---------------------
+
+/-- **`one_file_header_per_section_log`** (whole runs, `Proofs/Machine/CommitBlocks.lean`). For every configuration in
+which the file header is a row of its own (`FHC`; **every commit style**: decorated, omitted, raw with or without a
+decoration) and every input of the shape `git log -p` / `git show` / `git stash show -p` produce — optionally the sections
+of a diff (`pre`, usually none), then any number of commits (`Commit`), each being
+* the commit line `c`: matched by the commit regex and beginning `commit ` (`isCommitLine`),
+* the lines git prints before the commit's diff, `msgs` (`Author:`, `Date:`, `Merge:`, blank lines, the indented message,
+  notes, …): any lines the commit regex does not match and that begin with none of the literals a handler tests for
+  (`isMetaLine`: `diff `, `--- `/`+++ `/`rename …`/`copy …`, `new file mode `/`deleted file mode `, `@@`, `old mode `/`new mode `,
+  `Only in `, `Binary files `, `Submodule `) — git indents the message by four blanks, so its text is arbitrary,
+* the sections `secs` of the commit's diff: any list, **possibly empty**, of the section kinds of
+  `one_file_header_per_section_any` (`Sec2`: ordinary, renamed, mode change, empty added / deleted file, binary,
+  submodule short form, submodule log) —
+the file-header rows of delta's output are, in order, exactly one per file section (`rowsOfLog`: the `rowsOf2` of each
+commit's sections, the first section of a commit beginning at the index after the commit line and its `msgs`) and **none
+for a commit block**. A section whose header is written late (`Body.bare`, `Body.binary`: no `---`/`+++` lines) and that a
+commit block follows gets its header **at that commit line** (`late_header_written_at_next_commit_line`: the row's input
+index is the index of the commit line; `handle_commit_meta_header_line` calls `handle_pending_line_with_diff_name`
+first), with the same text as anywhere else; after the last commit, at the end of input. Unbounded: induction over
+commits, message lines and sections. -/
+theorem one_file_header_per_section_log {cfg : Cfg} (hc : FHC cfg) (pre : List Sec2) (commits : List Commit)
+    (wp : ∀ s ∈ pre, s.WF) (wc : ∀ k ∈ commits, k.WF) {m : M} (e : run cfg (linesOfLog pre commits) = .ok m) :
+    m.out.filter (fun r => r.kind == .file) = rowsOfLog cfg pre commits :=
+  run_one_file_row_per_section_log hc pre commits wp wc e
+
+/-- the same for sections and commit blocks in **any** order (`Item`; the shape above is the special case
+`logItems pre commits`): a commit block may also be followed directly by another commit block or end the input. -/
+theorem one_file_header_per_section_items {cfg : Cfg} (hc : FHC cfg) (items : List Item) (w : ∀ i ∈ items, i.WF)
+    {m : M} (e : run cfg (linesOfItems items) = .ok m) :
+    m.out.filter (fun r => r.kind == .file) = rowsOfItems cfg 0 items :=
+  run_one_file_row_per_section_items hc items w e
+
+/-- … in particular: as many file-header rows as the commits have sections together (plus those of `pre`) -/
+theorem file_header_count_log {cfg : Cfg} (hc : FHC cfg) (pre : List Sec2) (commits : List Commit)
+    (wp : ∀ s ∈ pre, s.WF) (wc : ∀ k ∈ commits, k.WF) {m : M} (e : run cfg (linesOfLog pre commits) = .ok m) :
+    (m.out.filter (fun r => r.kind == .file)).length = pre.length + (commits.map (fun c => c.secs.length)).sum := by
+  rw [one_file_header_per_section_log hc pre commits wp wc e]
+  simp [rowsOfLog, rowsOf2_length, rowsOfCommits_length]
+
+/-- the header of a section that is written late carries the input index of the line that follows the section — in a
+`git log -p` stream the next commit line. -/
+theorem late_header_written_at_next_commit_line (cfg : Cfg) (s : Sec2) (k : Nat) (h : s.late = true) :
+    (s.row cfg k).src = k + s.lines.length :=
+  late_row_src cfg s k h
+
+/-- step level, every commit style: the commit line writes the file header that is due for the section before it —
+nothing else of kind `file` — and leaves the machine inside the commit block with nothing pending; a line of the block
+writes no file row. -/
+theorem commit_line_writes_pending_header_only {cfg : Cfg} (hc : FHC cfg) {m : M} {l : L} (h : Pre m)
+    (hl : isCommitLine l = true) :
+    ∃ m', step cfg m l = .ok m' ∧ CMeta m' ∧ fileTL m' = facct cfg m ∧ m'.n = m.n + 1 :=
+  commit_line_step hc h hl
+
+theorem commit_block_line_writes_no_file_header {cfg : Cfg} {m : M} {l : L} (h : CMeta m) (hl : isMetaLine l = true) :
+    ∃ m', step cfg m l = .ok m' ∧ CMeta m' ∧ fileTL m' = fileTL m ∧ m'.n = m.n + 1 :=
+  meta_line_step h hl
+
+open Machine.CommitBlocksEx in
+/-- the hypotheses are met by concrete streams (three commits, 43 lines: message lines that look like diff lines but are
+indented, a commit without a diff, a merge commit with notes; sections: modified, mode-only before the next commit,
+binary, submodule log, empty added file last), the rows are the expected ones (the mode-only section's header at the
+second commit line, index 19), and the model's run agrees — also with a diff before the first commit and for a decorated,
+an omitted, a raw and a raw decorated commit style (`Proofs/Machine/CommitBlocksEx.lean`, `decide +kernel`). -/
+example : (∀ k ∈ log3, k.WF) ∧
+    shown (rowsOfLog {} [] log3) =
+      [("y", 12), ("run.sh (mode +x)", 19), ("img.png (binary file)", 37), ("Submodule sub 1111111..2222222:", 37),
+       ("added: e.txt", 43)] ∧
+    agrees {} [] log3 = true ∧ agrees {} [sBinary] log3 = true ∧
+    agrees { commitStyle := { isOmitted := true } } [] log2 = true ∧ agrees { commitStyle := { isRaw := true } } [] log2 = true :=
+  ⟨log3_wf, log3_rows, log3_run, pre_run, log2_run_styles.2.1, log2_run_styles.2.2.1⟩
+
+open Machine.CommitBlocksEx in
+example : (linesOfLog [] log3).length = 43 ∧ ((linesOfLog [] log3).getD 19 (mkL "")).text = c2.c.text := by decide
+
+/-- `isMetaLine` is needed: an unindented `diff --git` line inside the block starts a section (a file header appears). -/
+theorem commit_block_hypothesis_needed :
+    (match run {} [Machine.CommitBlocksEx.mkC "commit 1", mkL "diff --git a/x b/x"] with
+     | .ok m => (m.out.filter (fun r => r.kind == .file)).map (fun r => (String.ofList r.text, r.src))
+     | .error _ => []) = [("x", 2)] ∧ isMetaLine (mkL "diff --git a/x b/x") = false := by decide
+
+/-- the `commit ` prefix in `isCommitLine` is needed (the commit regex is configurable): a matched line beginning
+`diff --git `, under a raw commit style, is declined by the commit handler and becomes the first line of a section. -/
+theorem commit_line_prefix_needed :
+    (match run { commitStyle := { isRaw := true } } [{ mkL "diff --git a/x b/x" with commitRe := true }] with
+     | .ok m => (m.out.filter (fun r => r.kind == .file)).map (fun r => (String.ofList r.text, r.src))
+     | .error _ => []) = [("x", 1)] := by decide
 
 end C14
